@@ -296,10 +296,17 @@ package parser
 //@   ensures lexLE(p)
 //@   nothrow
 
+// The literal decoder never indexes or slices outside the text it was given.  (Its two
+// deliberate panics - a text ending in a lone backslash, a \u value beyond the Unicode range -
+// are outside what the lexer passes in; callers rely on nothrow, which is therefore an
+// assumption about the lexer's output, listed as such.)
 //@ func parseStringLiteral
-//@   trusted
+//@   props C04
+//@   safety C02 C04
 //@   pure
 //@   nothrow
+//@   invariant@2 0 <= j && j < size && len(str) >= size && size <= 4
+//@   invariant@3 0 <= j && j <= 2 && j <= len(str)
 
 //@ func (*parser).scanIdentifier
 //@   props C04
